@@ -12,7 +12,8 @@ simulation's generator and log A from the statement's formulas; no exception; ex
 uniform draw consumed (or none when A >= 1); pooled acceptance frequency per A-bin.
 Cells are also left-handed; isobaric / isotension simulations also get their moves through the drivers' constructors
 with molecular and frozen labels; settings are also assigned as numpy scalars and 0-d arrays; the Hamiltonian oracle
-takes its reference kinetic energy from a recorder around the refresh, not from the context.
+takes its reference kinetic energy from a recorder on entry to the integrator (every trajectory, so also the one tried
+again after a vetoed one), never from the context.
 """
 from __future__ import annotations
 
@@ -35,7 +36,7 @@ ASSUMPTIONS = [
     "calls with |log u - log A| < 1e-9 relative are counted as undecidable (probability ~1e-9 per call)",
     "thermal wavelength from ase.units CODATA constants: h / sqrt(2 pi m kT)",
 ]
-REQUIRED = {"simulations_with_constructor_default_moves": 20, "judged:canonical": 500, "judged:hamiltonian": 100, "judged:isobaric": 300, "judged:isotension": 300, "judged:grand:insert": 150, "judged:grand:delete": 150, "judged:grand:delete-at-zero": 5, "judged_beyond_exp_range": 300, "u_identified": 1500, "parameter_changes": 500, "passive_simulations": 60}
+REQUIRED = {"simulations_with_constructor_default_moves": 20, "judged:canonical": 500, "judged:hamiltonian": 100, "judged:hamiltonian:after-a-vetoed-trajectory": 10, "hamiltonian_reference_from_trajectory_start": 100, "judged:isobaric": 300, "judged:isotension": 300, "judged:grand:insert": 150, "judged:grand:delete": 150, "judged:grand:delete-at-zero": 5, "judged_beyond_exp_range": 300, "u_identified": 1500, "parameter_changes": 500, "passive_simulations": 60}
 SHARD_TIMEOUT = {"quick": 900, "thorough": 3000}
 
 
